@@ -65,28 +65,42 @@ def mk_module(isa, ff):
 
 def programs(isa_key, maxlen, rnd, limit):
     v = VOCAB[isa_key]
-    kinds = [k for k in ("ord", "ord2", "jmp", "jcc", "call", "ijmp", "icall", "ret", "symop", "label", "bytes") if k in v or k in ("label", "bytes")]
+    kinds = [k for k in ("ord", "ord2", "jmp", "jcc", "call", "ijmp", "icall", "ret", "symop", "label", "dlabel", "bytes") if k in v or k in ("label", "dlabel", "bytes")]
     out = []
     for n in range(1, maxlen + 1):
         for combo in itertools.product(kinds, repeat=n):
-            if combo.count("label") > 1:
+            if combo.count("label") + 2 * combo.count("dlabel") > 3 or combo.count("dlabel") > 1:
                 continue
             out.append(combo)
     if limit and len(out) > limit:
         rnd.shuffle(out)
         singles = [c for c in out if len(c) == 1]
         out = singles + out[:limit]
-    return out
+    # always enumerated in full: several labels at one position (two on consecutive lines, or three), after every kind of
+    # predecessor and before code / bytes / the end of the text
+    fam = []
+    for pre in [()] + [(k,) for k in ("ord", "jmp", "jcc", "call", "ret", "bytes") if k in v or k == "bytes"]:
+        for labs in (("dlabel",), ("label", "dlabel"), ("dlabel", "label")):
+            for post in ((), ("bytes",), ("ord",), ("bytes", "ord"), ("bytes", "label", "bytes")):
+                fam.append(pre + labs + post)
+    return out + [c for c in fam if c not in set(out)]
 
 
 def render(isa_key, combo, target_choice):
     v = VOCAB[isa_key]
     lines, stmts = [], []
-    has_label = "label" in combo
+    has_label = "label" in combo or "dlabel" in combo
+    names = iter(["Lab"] + ["Lab_%d" % i for i in range(1, 8)])
     for k in combo:
         if k == "label":
-            lines.append("Lab:")
-            stmts.append(("label", "Lab", None))
+            n = next(names)
+            lines.append(n + ":")
+            stmts.append(("label", n, None))
+        elif k == "dlabel":
+            for _ in range(2):
+                n = next(names)
+                lines.append(n + ":")
+                stmts.append(("label", n, None))
         elif k == "bytes":
             lines.append(".byte 1, 2")
             stmts.append(("bytes", None, None))
@@ -134,7 +148,7 @@ def check_program(isa_key, combo, target_choice):
     layout = []          # (kind, offset, size, mnemonic seen, symbol)
     for k, mn, t in stmts:
         if k == "label":
-            layout.append((k, off, 0, None, mn))
+            layout.append((k, off, 0, None, mn))      # for labels the last field is the label's name
             continue
         if k == "bytes":
             if data[off:off + 2] != b"\x01\x02":
@@ -163,12 +177,13 @@ def check_program(isa_key, combo, target_choice):
     syms = {s.name: s for s in res.symbols}
     for idx, (k, o, size, seen, t) in enumerate(layout):
         if k == "label":
-            s = syms.get("Lab")
+            s = syms.get(t)
             # a label at the very end of the text has no block starting there: it then designates the end of the last block
-            okpos = s is not None and isinstance(s.referent, gtirb.ByteBlock) and (
+            okpos = s is not None and isinstance(s.referent, gtirb.ByteBlock) and any(s.referent is b for b in blocks) and (
                 (s.referent.offset == o and not s.at_end) or (s.at_end and s.referent.offset + s.referent.size == o == len(data)))
             if not okpos:
-                pr.append(("C12/label-is-a-symbol-on-the-block-starting-at-its-position", "Lab -> %r (position %d)" % (s and s.referent, o)))
+                pr.append(("C12/label-is-a-symbol-on-the-block-starting-at-its-position", "%s -> %r%s (position %d; blocks %s)" % (
+                    t, s and s.referent, " at_end" if s is not None and s.at_end else "", o, [(type(b).__name__, b.offset, b.size) for b in blocks])))
             continue
         b = block_at(o, size)
         if b is None:
@@ -232,7 +247,7 @@ def c12_bounded(tier, seed):
         br = BResult()
         rnd = random.Random(seed)
         maxlen, limit = (3, 220) if tier == "quick" else (4, 6000)
-        br.bound = "programs of <= %d statements from the vocabulary in contracts/c12_13.py for %s (%s per ISA), targets = a local label / a module symbol" % (
+        br.bound = "programs of <= %d statements from the vocabulary in contracts/c12_13.py for %s (%s per ISA), targets = a local label / a module symbol; plus, in full, the family of several labels at one position (2 or 3, after ord/jmp/jcc/call/ret/bytes/nothing, before code / bytes / the end)" % (
             maxlen, ", ".join(ISAS), "a seed-chosen slice of %d + all single statements" % limit if limit else "all")
         br.clauses = ["C12/bytes-are-the-instructions-written", "C12/blocks-tile-the-data-in-order", "C12/at-most-one-empty-block-at-the-end",
                       "C12/control-transfer-ends-its-block-with-its-edges", "C12/indirect-transfer-targets-a-registered-proxy",
@@ -242,7 +257,7 @@ def c12_bounded(tier, seed):
         distinct = set()
         for isa_key in ISAS:
             for combo in programs(isa_key, maxlen, rnd, limit):
-                for tc in (("label", "sym") if "label" in combo and any(k in combo for k in ("jmp", "jcc", "call", "symop")) else ("sym",)):
+                for tc in (("label", "sym") if ("label" in combo or "dlabel" in combo) and any(k in combo for k in ("jmp", "jcc", "call", "symop")) else ("sym",)):
                     br.cases += 1
                     distinct.add((isa_key, combo, tc))
                     try:
